@@ -11,7 +11,7 @@ for mp in sorted(glob.glob("/verif/seeded/*/meta.json")):
     m = json.load(open(mp))
     done.setdefault(m["breaks_property"], []).append(m["summary"])
 extra = """
-Two more things for this round. (1) Prefer functions and files that none of the listed changes touches - helper modules (src/sys/, src/arena/, src/analysis/, src/builtins/, src/helpers.rs, src/diagnostics.rs, src/process.rs) as well as the obvious ones - and mistakes that involve TWO places that each look fine alone (a producer and a consumer that disagree about a unit, an order, an inclusive/exclusive bound, a default). (2) While you look, you may notice that the UNCHANGED tree itself already violates the property for some input. If so, do not use it as a mutation; instead write the exact reproducer (script or test) and what you observed to <worktree>/_seed/clean_findings.md - that is valuable on its own.
+Two more things for this round. (1) Prefer functions and files that none of the listed changes touches - helper modules (src/sys/, src/arena/, src/analysis/, src/builtins/, src/helpers.rs, src/diagnostics.rs, src/process.rs) as well as the obvious ones - and mistakes that involve TWO places that each look fine alone (a producer and a consumer that disagree about a unit, an order, an inclusive/exclusive bound, a default). (2) While you look, you may notice that the UNCHANGED tree itself already violates the property for some input. If so, do not use it as a mutation; instead write the exact reproducer (script or test) and what you observed to <worktree>/_seed/clean_findings.md - that is valuable on its own. (3) The tree has recently received a number of small repairs (`git log --oneline | head -45` shows them, each commit message says what was wrong); the code they added or changed is as fair a target as any, both for a mutation and for a closer look at whether the repair is complete.
 """
 for p in sorted(glob.glob(os.path.join(tpl, "C??.prompt.txt"))):
     pid = os.path.basename(p)[:3]
